@@ -308,6 +308,12 @@ func (e *fnEnc) zeroInit(st *state, addr string, t types.Type) {
 			e.zeroRegion(st, addr, a)
 			return
 		}
+		if _, isBV := isByteArrayBV(t); !isBV {
+			for i := int64(0); i < a.Len(); i++ {
+				e.zeroInit(st, idxAddr(addr, bvLit(64, uint64(i))), a.Elem())
+			}
+			return
+		}
 	}
 	if s, ok := t.Underlying().(*types.Struct); ok {
 		for i := 0; i < s.NumFields(); i++ {
